@@ -47,10 +47,10 @@ theorem icmp_family_parse_raw_shorter (cls : String) (b : Bytes) (o : Obj) (r : 
   simp only [classes, List.mem_cons, List.mem_nil_iff, or_false] at hc
   rcases hc with hc | hc <;> subst hc <;> simp only [parse] at h <;>
     rcases map_ok_inv h with ⟨⟨x, i⟩, hx, hr⟩ <;> injection hr with _ hi <;> subst hi
-  · rcases (icmp_parse_shape b x _ hx).2 with h1 | ⟨r', h1, hl⟩
+  · rcases (icmp_parse_shape b x _ hx).2.1 with h1 | ⟨r', h1, hl⟩
     · cases h1
     · injection h1 with h1; subst h1; exact hl
-  · rcases (icmp6_parse_shape b x _ hx).2 with h1 | ⟨r', h1, hl⟩
+  · rcases (icmp6_parse_shape b x _ hx).2.1 with h1 | ⟨r', h1, hl⟩
     · cases h1
     · injection h1 with h1; subst h1; exact hl
 
@@ -62,6 +62,47 @@ theorem icmp_family_parse_inv (cls : String) (b : Bytes) (o : Obj) (i : Inner) (
     rcases map_ok_inv h with ⟨⟨x, j⟩, hx, hr⟩ <;> injection hr with ho _ <;> subst ho
   · exact icmp_parse_inv b x j hx
   · exact icmp6_parse_inv b x j hx
+
+theorem ser_of_ext_bound (e : ExtS) (n : Nat) (hn : n < 4294967296)
+    (h : 4 + (e.exts.map ExtObj.size).sum ≤ n ∨ e = ExtS.default) : e.plainSize < 4294967296 := by
+  rcases h with h | h
+  · simp only [ExtS.plainSize]; omega
+  · subst h; simp [ExtS.plainSize, ExtS.default]
+
+/-- **what the parsing constructors build is serializable**: every size `header_size()` / `trailer_size()` add up is
+    bounded by the length of the parsed buffer, which is a `uint32_t` -/
+theorem icmp_family_parse_serializable (cls : String) (b : Bytes) (o : Obj) (i : Inner) (hc : cls ∈ classes)
+    (hb : b.length < 4294967296) (h : parse cls b = .ok (o, i)) : Serializable o := by
+  simp only [classes, List.mem_cons, List.mem_nil_iff, or_false] at hc
+  rcases hc with hc | hc <;> subst hc <;> simp only [parse] at h <;>
+    rcases map_ok_inv h with ⟨⟨x, j⟩, hx, hr⟩ <;> injection hr with ho _ <;> subst ho
+  · have hser : x.Ser := ser_of_ext_bound _ _ hb (icmp_parse_shape b x j hx).2.2
+    exact hser
+  · obtain ⟨_, _, hsz, hext⟩ := icmp6_parse_shape b x j hx
+    have hser : x.Ser := ⟨by omega, ser_of_ext_bound _ _ hb hext⟩
+    exact hser
+
+/-- the public constructors build serializable objects -/
+theorem icmp_family_mk_serializable (cls : String) (args : List String) (o : Obj) (h : mk cls args = .ok o) :
+    Serializable o := by
+  unfold mk at h
+  split at h
+  · rcases map_ok_inv h with ⟨p, hp, hr⟩; subst hr
+    unfold Icmp4.make at hp
+    split at hp
+    · injection hp with hp; subst hp; exact icmp_create_ser _
+    · obtain ⟨n, _, hp⟩ := bind_ok_inv hp
+      injection hp with hp; subst hp; exact icmp_create_ser _
+    · cases hp
+  · split at h
+    · rcases map_ok_inv h with ⟨p, hp, hr⟩; subst hr
+      unfold Icmp6.make at hp
+      split at hp
+      · injection hp with hp; subst hp; exact icmp6_create_ser _
+      · obtain ⟨n, _, hp⟩ := bind_ok_inv hp
+        injection hp with hp; subst hp; exact icmp6_create_ser _
+      · cases hp
+    · cases h
 
 /-- **C02 / Icmp**: for every family object satisfying the invariant whose sizes fit `uint32_t`, in every context,
     `write_serialization` succeeds on the region `PDU::serialize` hands out, keeps its length and leaves the inner
